@@ -38,14 +38,15 @@ ASSUMPTIONS = ['nutils_poly (external package) evaluates polynomials correctly',
                'continuity is tested at Gauss points of every interface element, derivatives up to order 3 (2 in 3-D)',
                'closed-form dimensions are asserted only for structured tensor splines, simplicial complexes, discontinuous/legendre/bubble bases and the multipatch layouts of the generator']
 BUDGET_S = {'quick': 95, 'thorough': 1500}
-NCASES = {'quick': 2600, 'thorough': 60000}
+NCASES = {'quick': 2400, 'thorough': 40000}
 CHUNK = 10
-FLOORS = {'quick': dict(cases=900, elements=8000, cont=1500, pum=500), 'thorough': dict(cases=15000, elements=150000, cont=30000, pum=8000)}
+FLOORS = {'quick': dict(cases=600, elements=5000, cont=1000, pum=350), 'thorough': dict(cases=8000, elements=80000, cont=15000, pum=4000)}
 
 REFUSAL_TYPES = (ValueError, NotImplementedError, AssertionError)
 F_SINGLE = cm.FINDING_SINGLE
 F_USPLINE = 'C12-unstructured-spline-typeerror'
 F_TWOPER = 'C12-c0-merge-two-element-periodic'
+F_NESTED = 'C12-nested-mask-sentinel-out-of-range'
 
 
 def plan(tier, seed):
@@ -545,10 +546,18 @@ def execute_derived(d, case, res, mon, T, B, S, V, elem_dofs, prom, rule):
             # mask of a mask
             idx2 = numpy.nonzero(rng.random(len(idx)) < .5)[0]
             MM = M[idx2]
-            VMM = S.eval(MM)
-            sub.cmp('masked basis equals parent columns', VMM, V[:, idx[idx2]], 'mask of mask')
-            cm.check_tables(sub, MM, S, VMM, len(T.topo), allow_duplicates=True, aux_seed=case['aux_seed'] + 2)
             res.count('derived/mask/nested')
+            try:
+                VMM = S.eval(MM)
+                [MM.get_dofs(i) for i in range(MM.nelems)]
+            except (AssertionError, IndexError) as e:
+                # structural predicate of F_NESTED: mask of a masked basis whose elements all carry exactly one parent dof
+                one_each = all(len(dd) == 1 for dd in elem_dofs)
+                sub.viol('masked basis cannot be evaluated', f'basis[mask][mask2] exists but evaluating it / get_dofs raised {type(e).__name__}: ' + traceback.format_exc()[-300:],
+                         mechanism=F_NESTED if one_each else None)
+            else:
+                sub.cmp('masked basis equals parent columns', VMM, V[:, idx[idx2]], 'mask of mask')
+                cm.check_tables(sub, MM, S, VMM, len(T.topo), allow_duplicates=True, aux_seed=case['aux_seed'] + 2)
         mon.failed |= sub.failed
     elif d['type'] == 'partition':
         nparts = int(rng.integers(1, 4))
@@ -581,7 +590,7 @@ def execute_derived(d, case, res, mon, T, B, S, V, elem_dofs, prom, rule):
         if rule is not None and rule.kind != 'none' and not sub.failed:
             prule = cm.ContRule(rule.kind, **{k: v for k, v in rule.__dict__.items() if k != 'kind'})
             prule.parts = parts
-            cm.check_continuity(sub, T, P, prule, 1)
+            cm.check_continuity(sub, T, P, prule, 0 if 'boundary' in T.kind else 1)
         mon.failed |= sub.failed
     elif d['type'] == 'vector':
         nv = d['n']
@@ -738,7 +747,21 @@ def repro_two_element_periodic():
     return jump > 1e-9, f"rectilinear([2],periodic=[0]).basis('lagrange',degree=1): get_dofs={dofs}, max jump across interfaces {jump:.3g}"
 
 
-REPRODUCERS = {F_SINGLE: repro_single_selection, F_USPLINE: repro_unstructured_spline, F_TWOPER: repro_two_element_periodic}
+def repro_nested_mask():
+    from nutils import mesh
+    topo = mesh.rectilinear([3])[0].refined_by([1])
+    b = topo.basis('h-spline', degree=0)[numpy.array([0, 2])][numpy.array([0])]
+    out = []
+    for i in range(len(topo)):
+        try:
+            out.append(numpy.asarray(b.get_dofs(i)).tolist())
+        except (AssertionError, IndexError) as e:
+            out.append(type(e).__name__)
+    fails = any(isinstance(o, str) for o in out)
+    return fails, f"rectilinear([3]).refined_by([1]).basis('h-spline',degree=0)[[0,2]][[0]]: get_dofs per element = {out}"
+
+
+REPRODUCERS = {F_NESTED: repro_nested_mask, F_SINGLE: repro_single_selection, F_USPLINE: repro_unstructured_spline, F_TWOPER: repro_two_element_periodic}
 
 
 def finalize(m, tier, seed):
